@@ -211,6 +211,7 @@ def mm_preseal():
                          C("inv", "state_inv(res)", "C20"),
                          C("builtins", "spec_builtin_pools(res) && builtins_live(res) && pools_ok(res.pools@)", "C16"),
                          C("ids", "ids_new(state.coins@.coins, res.coins@.coins)", "C20", "C02", note="settlement introduces no coin id other than ids of transaction outputs"),
+                         C("young", "young(state.coins@.coins, res.coins@.coins, state.height)", "C09", "C02", note="every coin settlement leaves behind is untouched or was written at this block's height (under the pre-978392 deposit rule too)"),
                          C("markers", "!deposit_legacy(state.network, state.height) ==> markers_kept(state.coins@.coins, res.coins@.coins)", "C19",
                            note="settlement never touches a faucet's dedup marker (not derived for the pre-978392 deposit rule, whose coin writes are characterised by their frame only)")])
 def st_tip909():
@@ -235,21 +236,25 @@ def st_seal_full():
                            note="sealing never removes or overwrites a faucet's dedup marker: settlement writes under transaction-output ids, the reward coin under the reward pseudo-id (A-HASH domain separation)"),
                          C("frame", "res.0.network == self.network && res.0.height == self.height && res.0.history == self.history && res.0.transactions == self.transactions && res.0.stakes == self.stakes && res.0.dosc_speed == self.dosc_speed", "C07", "C06"),
                          C("inv", "res.0.coins.wf() && spec_builtin_pools(res.0)", "C16", "C20"),
-                         C("sinv", "state_inv(res.0) && pools_ok(res.0.pools@) && builtins_live(res.0)", "C16", "C20", note="sealing preserves the state invariants")])
+                         C("sinv", "state_inv(res.0) && pools_ok(res.0.pools@) && builtins_live(res.0)", "C16", "C20", note="sealing preserves the state invariants"),
+                         C("hinv", "hinv(self) ==> hinv_sealed(res.0)", "C09", "C18", "C05",
+                           note="chain invariants through sealing: settlement writes coins at this height under transaction-output ids, the reward coin at this height under this height's pseudo-id (so the NEXT height's reward id is still free: what collect_proposer_action_fee needs)")])
 
 def st_next_unsealed():
     return dict(requires=[C("chain", "chain_ok(self.0) && self.0.height.0 < u64::MAX"), C("wf", "state_inv(self.0)")],
                 ensures=[C("det", "res == spec_next(*self)", det=True),
                          C("next", "next_rel(self.0, res)", "C07", "C13"),
                          C("chain", "chain_ok(res)", "C07"),
-                         C("inv", "state_inv(res)", "C20")])
+                         C("inv", "state_inv(res)", "C20"),
+                         C("hinv", "hinv_sealed(self.0) ==> hinv(res)", "C09", "C18", note="opening the next block: the sealed header (with its non-zero DOSC speed) enters the history below the new height; coins are untouched")])
 def st_apply_tx_batch():
     return dict(requires=[C("pre", "batch_pre(*old(self), txx@)")],
                 ensures=[C("noop", "res is Err ==> *final(self) == *old(self)", "C02"),
                          C("errkind", "res is Err ==> !(res->Err_0 is WrongHeader)", "C06", char=True),
                          C("ok", "res is Ok ==> batch_result(*old(self), txx@, *final(self))", "C02", "C06", "C01"),
                          C("stakes_kept", "res is Ok ==> forall|k: TxHash| old(self).stakes@.contains_key(k) ==> #[trigger] final(self).stakes@.contains_key(k)", "C13"),
-                         C("markers", "res is Ok && markers_ok(old(self).coins@.coins) ==> markers_kept(old(self).coins@.coins, final(self).coins@.coins) && markers_ok(final(self).coins@.coins)", "C19")])
+                         C("markers", "res is Ok && markers_ok(old(self).coins@.coins) ==> markers_kept(old(self).coins@.coins, final(self).coins@.coins) && markers_ok(final(self).coins@.coins)", "C19"),
+                         C("hinv", "res is Ok ==> hinv(*final(self))", "C09", "C18")])
 
 def ts_iter():
     return dict(ensures=[C("enum", "exists|ks: Seq<TxHash>| is_enum(self@, ks) && res@.len() == ks.len() && (forall|i: int| 0 <= i < ks.len() ==> *(#[trigger] res@[i]) == self@[ks[i]])", "C07")])
@@ -259,6 +264,7 @@ def ap_batch_impl():
                          C("stakes_kept", "res is Ok ==> forall|k: TxHash| this.stakes@.contains_key(k) ==> #[trigger] res->Ok_0.stakes@.contains_key(k)", "C13", note="a batch only adds stakes: every registered stake stays registered"),
                          C("markers", "res is Ok && markers_ok(this.coins@.coins) ==> markers_kept(this.coins@.coins, res->Ok_0.coins@.coins) && markers_ok(res->Ok_0.coins@.coins)", "C19",
                            note="no transaction can spend a faucet's dedup marker (nothing hashes to its all-zero covenant hash), so an accepted batch keeps every marker"),
+                         C("hinv", "res is Ok ==> hinv(res->Ok_0)", "C09", "C18", note="chain invariants kept by an accepted batch: no coin younger than the block, no reward pseudo-coin of this or a later height, history below the height with non-zero DOSC speeds, current speed non-zero"),
                          C("errkind", "res is Err ==> !(res->Err_0 is WrongHeader)", "C06", char=True)])
 
 def cm_new_abs():
@@ -274,7 +280,8 @@ def mm_phase(name, extra_props=()):
     return dict(requires=[C("inv", "state_inv(state) && builtins_live(state) && pools_ok(state.pools@)")],
                 ensures=[C("frame", "pool_phase_frame(state, res) && res.fee_pool == state.fee_pool", "C15", "C17", "C05"),
                          C("inv", "state_inv(res) && pools_ok(res.pools@)", "C20", "C16"),
-                         C("builtins", "builtins_live(res) && (forall|k: PoolKey| state.pools@.contains_key(k) ==> #[trigger] res.pools@.contains_key(k))", "C16")])
+                         C("builtins", "builtins_live(res) && (forall|k: PoolKey| state.pools@.contains_key(k) ==> #[trigger] res.pools@.contains_key(k))", "C16"),
+                         C("young", "young(state.coins@.coins, res.coins@.coins, state.height)", "C09", "C02", note="every coin the phase leaves behind is untouched or was written at this block's height (chain invariant coin_heights_ok)")])
 
 # ---- batch application (src/state/applytx.rs)
 def ap_extract_input_coins():
@@ -354,6 +361,7 @@ def mm_deposits_single():
                  C("ids", "forall|id: CoinID| #[trigger] final(state).coins@.coins.contains_key(id) ==> old(state).coins@.coins.contains_key(id) || exists|i: int| 0 <= i < old(deposits)@.len() && id == cid(#[trigger] old(deposits)@[i], 0)", "C15", "C01",
                    note="holds under the pre-978392 rules too: deposit settlement introduces no coin id other than the requests' first outputs"),
                  C("frame", "pool_phase_frame(*old(state), *final(state)) && final(state).fee_pool == old(state).fee_pool", "C15", "C17"),
+                 C("young", "young(old(state).coins@.coins, final(state).coins@.coins, old(state).height)", "C09", "C02", note="holds under the pre-978392 rules too: every coin written carries this block's height, nothing else is altered (removals aside)"),
                  C("inv", "final(state).coins.wf() && (spec_tip906(*old(state)) ==> counts_ok(final(state).coins@)) && origin_ok(final(state).coins@.coins) && (!spec_tip906(*old(state)) ==> final(state).coins@.counts == old(state).coins@.counts)", "C20")])
 
 def mm_withdrawals_single():
